@@ -301,7 +301,8 @@ class Run:
             res = self.spec["funcs"][fname]["resource"]
             if res == "async_thread" and (self.tick_nodes == "all" or list(path or ()) in self.tick_nodes):
                 t0 = self.ticks
-                pred = lambda: self.ticks > t0 or self.ticker_stopped  # noqa: E731
+                need = int(self.scn.get("tick_wait", 1))   # the node stays in flight over this many loop iterations
+                pred = lambda: self.ticks >= t0 + need or self.ticker_stopped  # noqa: E731
                 self.rt.probe("tick_dependent_bodies")
         sim.yield_("body", pred=pred, info=("finish", tok, nid))
         if flt is not None and flt["when"] == "late":
